@@ -6,6 +6,9 @@ Mechanisms decided here (the statement's `every accepted program` is reduced to 
                    delimiter terminals matched, opener first, closer last;
  parse location -- parse_sv_pp / parse_lib_pp MIR: a parser failure at symbolic position p becomes
                    Error::Parse(text.origin(p)) (with C03: the file and offset of that byte);
+ garbage-first  -- Engine G fixpoint: the set of productions whose body can succeed having consumed, at its entry position, a
+                   byte outside printable ASCII / white space; none of them is reachable from source_text outside the
+                   compiler-directive grammar (so nothing moves past such a byte at a token boundary and strict eof fails);
  pp location    -- preprocess_str MIR with the preprocessor parser failing at symbolic position p:
                    Error::Preprocess(Some((path being read, p))); concrete lexical faults (unterminated string /
                    block comment, lone backslash; top file and inside an include) report an offset not after the fault."""
@@ -115,6 +118,57 @@ def fault_case(name, before, fault, via_include):
     return Item('fault/%s%s' % (name, '/include' if via_include else ''), work)
 
 
+DIRECTIVE_FILE = 'sv-parser-parser/src/general/compiler_directives.rs'
+LIBRARY_FILE = 'sv-parser-parser/src/source_text/library_source_text.rs'
+
+
+def garbage_first_case(g):
+    """no production reachable from the SystemVerilog start symbols, outside the compiler-directive grammar, can succeed having
+    consumed -- at its entry position -- a byte that starts no token (Engine G fixpoint `garbage_consuming`)"""
+    def work():
+        t0 = time.time()
+        if g.get('garbage_unknown'):
+            raise Inconclusive('garbage-first: budget exhausted on %s' % g['garbage_unknown'][:5])
+        G_ = set(g['garbage_consuming'])
+        cm = g['callees']
+        files = g['prod_files']
+
+        def reach(roots):
+            seen, todo = set(), [r for r in roots if r in cm]
+            while todo:
+                n = todo.pop()
+                if n in seen:
+                    continue
+                seen.add(n)
+                todo.extend(c for c in cm.get(n, ()) if c not in seen)
+            return seen
+        rs = reach(['sv_parser', 'sv_parser_incomplete', 'source_text', 'source_text_incomplete'])
+        rl = reach(['lib_parser', 'lib_parser_incomplete', 'library_text', 'library_text_incomplete'])
+        rounds = [r for r in g['rounds'] if str(r['round']).startswith('garbage-first')]
+        out = {'family': 'rejection-and-location', 'label': 'garbage-first', 'text': 'fixpoint over %d productions, %d rounds; consuming set = %s; reachable: sv %d, lib %d' % (
+                   g['n_productions'], len(rounds), sorted(G_), len(rs), len(rl)),
+               'real_paths': sum(r['analysed'] for r in rounds), 'ref_paths': 0, 'pairs': sum(r['analysed'] for r in rounds), 'queries': 0, 'solver_s': 0, 'steps': 0,
+               'models': {}, 'cex': [], 'obligations': [], 'case': {'mechanism': 'garbage-first'}}
+        if len(rs) < 500 or 'module_declaration' not in rs:
+            raise Inconclusive('garbage-first: call graph from the start symbols looks incomplete (%d productions reachable)' % len(rs))
+        direct = set(rounds[0].get('added', [])) if rounds else set()
+        bad_sv = [n for n in sorted(G_ & rs, key=lambda n: (n not in direct, n)) if files.get(n) != DIRECTIVE_FILE]
+        for n in bad_sv[:8]:
+            if True:
+                out['cex'].append({'kind': 'loc', 'note': 'production %s (%s), reachable from source_text outside the compiler-directive grammar, can consume a byte that starts no token '
+                                   '(non-printable / non-ASCII) at its first position%s: such a byte inserted at a token boundary is not rejected there%s' % (
+                                       n, files.get(n), ' through a primitive of its own body' if n in direct else ' through a sub-parser',
+                                       '' if n != bad_sv[0] or len(bad_sv) <= 8 else ' (%d productions in all; the first ones listed consume it themselves)' % len(bad_sv)),
+                                   'model': None, 'status': 'reproduced', 'role': 'garbage-first:' + n})
+        for n in sorted((G_ & rl) - rs):
+            if files.get(n) not in (DIRECTIVE_FILE, LIBRARY_FILE):
+                out['cex'].append({'kind': 'loc', 'note': 'production %s (%s), reachable from library_text, can consume a byte that starts no token at its first position' % (n, files.get(n)),
+                                   'model': None, 'status': 'reproduced', 'role': 'garbage-first-lib:' + n})
+        out['wall'] = round(time.time() - t0, 2)
+        return out
+    return Item('garbage-first', work)
+
+
 def families(args):
     g = gcheck.gather(args)
     results = g['results']
@@ -155,6 +209,8 @@ def families(args):
             c = c20.pp_case(lib, k)
             items.append(Item('parse-location/' + c.label, c.fn))
     items.append(pp_location_case())
+    if not args.only:
+        items.append(garbage_first_case(g))
     for name, before, fault in FAULTS:
         for inc in (False, True):
             items.append(fault_case(name, before, fault, inc))
@@ -165,8 +221,10 @@ def main():
     args = proprun.parse_args(PID)
     return ppprop.run(PID, 'model_checking', families, args,
                       rule='grammar mechanisms via Engine G (strict entries, delimiter helpers), location mapping via the wrapper MIR with failure kind and position symbolic, concrete lexical faults in the top file and behind an include with strip_comments symbolic',
-                      bounds={'tier': args.tier}, outside=['that GreedyError reports a position not after an inserted garbage byte for every program (argued from FIRST sets, not decided)', 'deleted-delimiter rejection beyond the helper-level fact',
-                                                            'the garbage-byte FIRST-set query (bounded lexical engine)'],
+                      bounds={'tier': args.tier}, outside=['that GreedyError reports a position not after an inserted garbage byte for every program (follows from garbage-first: no production moves past the byte; the maximum itself is nom-greedyerror, trusted)',
+                                                            'deleted-delimiter rejection beyond the helper-level fact',
+                                                            'garbage-first: tokens that begin before the inserted byte and run over it (comments, strings, escaped identifiers: the statement places the byte at a token boundary); '
+                                                            'the library grammar where a file path is expected (every byte but , ; blank starts a file_path_spec)'],
                       assumptions=['rustc nightly MIR', 'nom contracts', 'C03 for the meaning of origin(p)'], sample_sym='errpos, kind, outcome, allow_incomplete, strip_comments')
 
 
